@@ -526,7 +526,60 @@ def r5(run: Run, rt):
 
 
 # ---------------------------------------------------------------------------------------------------
+def r6_eval(run: Run, rt):
+    """EDATE / EOMONTH decided by abstract evaluation (engine F) on concrete dates: the start date moved by the truncated number
+    of whole months, the day clipped to the length of the target month (EDATE) or set to it (EOMONTH)"""
+    import datetime as _dt
+    import calendar as _cal
+    import math
+    from ..finite import evaluator_for, AbsRaise
+    starts = [(2024, 1, 31), (2023, 1, 31), (2024, 3, 31), (2024, 5, 15), (2024, 12, 31), (2024, 2, 29), (2023, 11, 30), (2024, 1, 1)]
+    shifts = [0, 1, -1, 2, 11, 12, -12, 13, 1.9, -1.9, 0.5, -0.5, 24, -25]
+
+    def moved(s, n):
+        k = s[0] * 12 + (s[1] - 1) + math.trunc(n)
+        y, m = divmod(k, 12)
+        return y, m + 1
+    for cp in rt.copies():
+        for h in ('_eomonth', '_edate'):
+            fn = cp.members.get(h)
+            if fn is None:
+                run.bad('C15.R6', f'{h}[{cp.label}]', 'missing', f'helper {h} is missing', loc=cp.path)
+                continue
+            for s_ in starts:
+                for n in shifts:
+                    y, m = moved(s_, n)
+                    last = _cal.monthrange(y, m)[1]
+                    want = (y, m, last if h == '_eomonth' else min(s_[2], last))
+                    ev = evaluator_for(cp, max_depth=6)
+                    construct = f'{h}[{cp.label}]/{s_[0]}-{s_[1]:02d}-{s_[2]:02d}{n:+}'
+                    try:
+                        res = ev.call_method(h, [_dt_av(*s_), const_av(n)])
+                        got = res.val[1:] if res.kind in ('date', 'datetime') and isinstance(res.val, tuple) and res.val[:1] == ('ymd',) else \
+                            res.val if res.val is not None and not isinstance(res.val, tuple) else repr(res)
+                    except Unknown as u:
+                        raise AnalysisError('C15.R6', f'{construct}: the abstraction cannot follow the helper ({u})')
+                    except AbsRaise as e:
+                        got = f'raises {e.exc}'
+                    run.check(got == want, 'C15.R6', construct, 'shifted-date',
+                              f'{h[1:].upper()}({s_[0]}-{s_[1]:02d}-{s_[2]:02d}, {n}) gives {got!r}; the start date moved by trunc({n}) whole months '
+                              + ('with the day set to the last day of that month' if h == '_eomonth' else 'with the day clipped to the '
+                                 'length of that month') + f': {want!r}', fact=f'-> {got!r}', loc=cp.loc(fn))
+
+
+def _dt_av(y, m, d):
+    return AV('datetime', val=('ymd', y, m, d))
+
+
 def r6(run: Run, rt):
+    try:
+        r6_eval(run, rt)
+    except AnalysisError as e:
+        run.notes.append(f'C15.R6: EDATE/EOMONTH by structure ({e})')
+        _r6_structural(run, rt)
+
+
+def _r6_structural(run: Run, rt):
     for cp in rt.copies():
         for h in ('_eomonth', '_edate'):
             fn = cp.members.get(h)
@@ -617,7 +670,63 @@ def _paths_of(expr):
     return [([], expr)]
 
 
+def r7_eval(run: Run, rt):
+    """DATE decided by abstract evaluation (engine F) on concrete year / month / day numbers: the year window, January 1st of
+    the year, month - 1 months and day - 1 days later, for zero, negative and overflowing months and days, texts converted"""
+    import datetime as _dt
+    import calendar as _cal
+    from ..finite import evaluator_for, AbsRaise
+
+    def excel(y, m, d):
+        try:
+            y, m, d = int(y), int(m), int(d)
+        except ValueError:
+            return '#NUM!'
+        if 0 <= y <= 1899:
+            y += 1900
+        elif y < 0 or y > 9999:
+            return '#NUM!'
+        k = y * 12 + (m - 1)
+        yy, mm = divmod(k, 12)
+        res = _dt.date(yy, mm + 1, 1) + _dt.timedelta(days=d - 1)
+        return (res.year, res.month, res.day)
+    cases = [(2024, 1, 1), (2024, 2, 29), (2023, 2, 29), (2024, 2, 30), (2024, 12, 31), (2024, 13, 1), (2024, 14, 31), (2024, 0, 1), (2024, -1, 15),
+             (2024, 1, 0), (2024, 3, -1), (2024, 1, 32), (2024, 1, 366), (2024, 25, 0), (24, 1, 1), (0, 1, 1), (1899, 12, 31), (1900, 1, 1),
+             (9999, 12, 31), (-1, 1, 1), (10000, 1, 1), ('2024', '2', '3'), ('x', 1, 1), (2024, 'y', 1), (2024, 1, 'z'), (2024, 6, 15),
+             (2021, 7, 31), (2022, 11, 30)]
+    for cp in rt.copies():
+        fn = cp.members.get('_date')
+        if fn is None:
+            run.bad('C15.R7', f'_date[{cp.label}]', 'missing', 'helper _date is missing', loc=cp.path)
+            continue
+        for y, m, d in cases:
+            want = excel(y, m, d)
+            ev = evaluator_for(cp, max_depth=6)
+            construct = f'_date[{cp.label}]/DATE({y!r}, {m!r}, {d!r})'
+            try:
+                res = ev.call_method('_date', [const_av(y), const_av(m), const_av(d)])
+                got = res.val[1:] if isinstance(res.val, tuple) and res.val[:1] == ('ymd',) else res.val if res.val is not None else repr(res)
+                if isinstance(got, tuple) and res.kind not in ('date', 'datetime'):
+                    got = repr(res)
+            except Unknown as u:
+                raise AnalysisError('C15.R7', f'{construct}: the abstraction cannot follow the helper ({u})')
+            except AbsRaise as e:
+                got = f'raises {e.exc}'
+            run.check(got == want, 'C15.R7', construct, f'date:{y!r},{m!r},{d!r}',
+                      f'DATE({y!r}, {m!r}, {d!r}) gives {got!r}; Excel: {want!r} (years 0..1899 are offsets from 1900, outside 0..9999 is '
+                      f'#NUM!; month m is m - 1 months after January 1st and day d is d - 1 days after the first of that month, zero '
+                      f'and negative values included)', fact=f'-> {got!r}', loc=cp.loc(fn))
+
+
 def r7(run: Run, rt):
+    try:
+        r7_eval(run, rt)
+    except AnalysisError as e:
+        run.notes.append(f'C15.R7: DATE by structure ({e})')
+        _r7_structural(run, rt)
+
+
+def _r7_structural(run: Run, rt):
     for cp in rt.copies():
         fn = cp.members.get('_date')
         if fn is None:
